@@ -25,6 +25,7 @@ impl<'l, Data> EventLoop<'l, Data> {
 //@ rw R10 1 <<self .handle .inner .sources_with_additional_lifecycle_events .borrow_mut()>> => <<extra_cell>>
 //@ rw R10 1 <<&self.handle.inner.sources.borrow()>> => <<sources_cell>>
 //@ rw R10 1 <<self.handle.inner.poll.borrow()>> => <<poll_cell>>
+//@ bind WAIT <<poll.poll(>>
 //@ sig
 /// S1 slice of EventLoop::dispatch_events: everything from the first statement up to and including the wait
 /// (`let events = { .. poll.poll(timeout) .. };`): the before_sleep loop, the forced zero timeout, the EINTR retry loop.
@@ -65,8 +66,9 @@ fn before_sleep_and_wait(&mut self, extra_cell: &AdditionalLifecycleEventsSet, s
             lit.seq().len() == extra_cell@.len(),
             forall|i: int| 0 <= i < lit.seq().len() ==> *(#[trigger] lit.seq()[i]) == extra_cell@[i],
             forall|i: int| 0 <= i < lit.index@ ==> disp_of(sources_cell, #[trigger] extra_cell@[i]).w_before_sleep(),
-            self.synthetic_events@.len() > old(self).synthetic_events@.len() ==> (timeout matches Some(d) && crate::ext_time::dur_ns(d) == 0),
-            self.synthetic_events@.len() == old(self).synthetic_events@.len() ==> timeout == timeout0,
+            // ($WAIT: the variable that is passed to `poll.poll(..)`, whatever it is called)
+            self.synthetic_events@.len() > old(self).synthetic_events@.len() ==> ($WAIT matches Some(d) && crate::ext_time::dur_ns(d) == 0),
+            self.synthetic_events@.len() == old(self).synthetic_events@.len() ==> $WAIT == timeout0,
             self.synthetic_events@.len() >= old(self).synthetic_events@.len(),
             forall|k: int| 0 <= k < old(self).synthetic_events@.len() ==> self.synthetic_events@[k] == old(self).synthetic_events@[k],
             forall|k: int| old(self).synthetic_events@.len() <= k < self.synthetic_events@.len() ==>
@@ -79,10 +81,10 @@ fn before_sleep_and_wait(&mut self, extra_cell: &AdditionalLifecycleEventsSet, s
         invariant
             self.synthetic_events@ == synth1,
             // either no wait has happened yet and the timeout is still the one computed above, or the first wait used it
-            timeout == timeout1 || poll_cell.w_polled(timeout1),
+            $WAIT == timeout1 || poll_cell.w_polled(timeout1),
 //@ before <<let events = {>>
         let ghost synth1 = self.synthetic_events@;
-        let ghost timeout1 = timeout;
+        let ghost timeout1 = $WAIT;
 //@ tail
     Ok(())
 //@ endslice
